@@ -1,7 +1,7 @@
 (* C03 — stopping regulation hands the fan back or leaves it at full speed.
    This file holds only the property theorems; each is closed by [exact]. *)
 From Coq Require Import ZArith Bool List.
-From F2G Require Import gen.Consts Model.Restore Proofs.Restore.
+From F2G Require Import gen.Consts Model.Restore Proofs.Restore Model.Daemon Proofs.Daemon.
 Import ListNotations.
 Open Scope Z_scope.
 
@@ -39,3 +39,37 @@ Theorem C03_restore_d3_refuted :
     ~ (safe true orig (r_dev r) \/ last_resort_write_failed p r).
 Proof. exact restore_d3_refuted. Qed.
 Print Assumptions C03_restore_d3_refuted.
+
+(* the process: for EVERY configuration (any number of fans and sensors) and EVERY
+   schedule - any length, any number of signals at any positions, any outcome of
+   every start-up step and control cycle, any driver verdicts (D22 hypothesis per
+   event) - the process never panics, and if it terminated then every controller
+   whose regulation began ended through restorePwmEnabled with its fan safe, or
+   with the last-resort write failed.  Oracle hypotheses (SPEC): oklog/run waits
+   for all actors before Run returns; os.Exit follows; a signal is delivered into
+   the one-element channel buffer or dropped. *)
+Theorem C03_process :
+  forall fans nmons sched,
+    forallb ev_detectable sched = true ->
+    let s := exec repaired (init fans nmons) sched in
+    (forall site, st s <> Crashed site) /\
+    (terminated s ->
+     forall c, In c (ctrls s) -> c_started c = true ->
+       exists p r, c_restore c = Some (p, r) /\ c_dev c = r_dev r /\
+                   (safe (sup c) (c_orig c) (c_dev c) \/ last_resort_write_failed p r)).
+Proof. exact process_safe. Qed.
+Print Assumptions C03_process.
+
+(* D2 as found: the second signal panics the process, the fan stays in manual mode at reduced speed *)
+Theorem C03_process_d2_refuted :
+  let s := exec d2_only (init one_fan 1) sched_two_signals in
+  st s = Crashed 2 /\ map c_dev (ctrls s) = [mkDev 1 60] /\ map c_started (ctrls s) = [true].
+Proof. exact process_d2_refuted. Qed.
+Print Assumptions C03_process_d2_refuted.
+
+(* D4 as found: a failing controller panics the process, the other fan stays in manual mode *)
+Theorem C03_process_d4_refuted :
+  let s := exec d4_only (init two_fans 1) sched_init_fails in
+  st s = Crashed 4 /\ map c_dev (ctrls s) = [mkDev 1 40; mkDev 2 90].
+Proof. exact process_d4_refuted. Qed.
+Print Assumptions C03_process_d4_refuted.
